@@ -278,8 +278,6 @@ def snapshot_flow(prog, tr, eff, ci):
             return 'async'
         if desc[0] == 'call' and desc[1] == 'Story::can_continue':
             return 'cc'
-        if desc == ('local', 'output_stream_ends_in_newline'):
-            return 'nl'
         return None
 
     def kills(fn, bb, x):
